@@ -201,10 +201,17 @@ def check_width_predicate(ctx, F, tag, prefix, only=None):
             nz = fact_nonzero(fs, wt)
             le = fact_at_most(fs, wt, 64) and not fact_at_most(fs, wt, 63)
             wv = core(b.term_of_operand(dict(zip(st["rv"]["fields"], st["rv"]["ops"]))["width"]))
-            ok = ok and nz and le and wv[:2] == ("param", wp)
+            from guards import validated_by_ctor, ctor_payload_width
+            if not (nz and le) and validated_by_ctor(fs, wt) and fn != "int_vector::IntVector::new":
+                # delegated: `IntVector::new(width)?` accepted the width (that constructor's own predicate is the obligation above)
+                nz = le = delegated = True
+            pw = ctor_payload_width(wv)
+            ok = ok and nz and le and (wv[:2] == ("param", wp) or (pw is not None and pw[:2] == ("param", wp)))
         # the failing edges return Err
         errs = [bi for bi, si, st in b.stmts() if st["s"] == "assign" and not st["lhs"]["p"] and st["rv"]["r"] == "agg" and st["rv"].get("vname") == "Err"
                 and st["rv"].get("def") == "std::result::Result"]
+        if not errs and any(callee_written(t).endswith("FromResidual::from_residual") for _, t in b.calls()):
+            errs = [0]          # the refusal of the delegate is propagated by `?`
         ctx.ob(prefix + ".width-predicate", fn + tag, loc(b.raw["span"]), ok and bool(errs), "guard-dominance",
                "construction dominated by exactly width != 0 && width <= WORD_BITS with the checked value stored: %s; refusing edge returns Err: %s" % (ok, bool(errs)))
 
@@ -249,9 +256,12 @@ def check_select_clamps(ctx, F, tag, prefix="C09.R6"):
                     if t[0] != "call" or not t[2] or core(t[2][0])[:2] != ("param", 0):
                         return False
                     last = t[1].split("::")[-1]
+                    # (a call through the trait with the transformation as its generic argument -- a generic helper instantiated
+                    # at this call site -- names the transformation there)
+                    compl = "Complement" in t[1] or any("Complement" in str(a) for a in (t[3] if len(t) > 3 else ()))
                     if tr == "ops::Select":
-                        return last == "count_ones" and "Complement" not in t[1]
-                    return last == "count_zeros" or (last == "count_ones" and "Complement" in t[1])
+                        return last == "count_ones" and not compl
+                    return last == "count_zeros" or (last == "count_ones" and compl)
 
                 def is_rank(t):
                     return core(t)[:2] == ("param", 1) and strip_casts(t)[:2] == ("param", 1)
@@ -311,10 +321,11 @@ def check_select_clamps(ctx, F, tag, prefix="C09.R6"):
                     if any(l in copies for l in reads):
                         stray.append(loc(blk["term"]["sp"]))
                 from_r = refusing
-                some_after_refusal = [bi for bi in from_r for st in b.blocks[bi]["stmts"]
-                                      if st["s"] == "assign" and st["rv"]["r"] == "agg" and st["rv"].get("vname") == "Some" and st["lhs"]["l"] == 0]
-                none_built = any(st["s"] == "assign" and st["rv"]["r"] == "agg" and st["rv"].get("vname") == "None" and st["lhs"]["l"] == 0
-                                 for bi in from_r for st in b.blocks[bi]["stmts"])
+                # (the value may be built in the return place or in the result local of an inlined helper that is then moved there)
+                is_opt = lambda st, v: st["s"] == "assign" and st["rv"]["r"] == "agg" and st["rv"].get("vname") == v and st["rv"].get("def") == "std::option::Option" and \
+                    (st["lhs"]["l"] == 0 or (b.local_ty(st["lhs"]["l"]) or "").startswith("std::option::Option<usize>"))
+                some_after_refusal = [bi for bi in from_r for st in b.blocks[bi]["stmts"] if is_opt(st, "Some")]
+                none_built = any(is_opt(st, "None") for bi in from_r for st in b.blocks[bi]["stmts"])
                 opt = not it["name"].endswith("_iter")
                 ok = not wrong and not stray and not some_after_refusal and (none_built or not opt)
                 ctx.ob(prefix + ".select-clamp-exact", key, where, ok, "guard-shape+dominance",
@@ -325,8 +336,48 @@ def check_select_clamps(ctx, F, tag, prefix="C09.R6"):
     ctx.floor("select-clamp-sites" + tag, 12)
 
 
+def check_returned_arguments(ctx, F, tag, rule="C09.R7.returned-argument-bounded", select=lambda fn: True):
+    """A query that answers with its own argument (`rank(i) = i` on a vector of ones, `select(r) = r`, a shortcut for a degenerate
+    vector) is right only while the argument is inside the vector: the answer for an argument beyond the end is clamped to a count.
+    Every integer result of a query entry point that is computed from the argument alone -- no read of self in it -- must be
+    dominated by a comparison of that argument against a quantity of self.  Positive identification (the pinned tree has no such
+    result, the count of checked results is reported)."""
+    entries = entry_table(F)
+    n = 0
+    for fn in sorted(entries):
+        if not select(fn):
+            continue
+        b = F.body(fn)
+        if b.local_ty(0) not in ("usize", "u64"):
+            continue
+        bad = []
+        roots = b.root_defs(0) or [(bi, payload) for (bi, si, kind, payload) in b.defs().get(0, []) if kind == "assign"]
+        if True:
+            for rbi, rv in roots:
+                t = b.term_of_rvalue(rv)
+                subs = list(subterms(t))
+                args = {x[1] for x in subs if x[0] == "param" and x[1] >= 1}
+                if not args or any(x[0] == "param" and x[1] == 0 for x in subs):
+                    continue
+                n += 1
+                fs = facts_at(b, rbi)
+                bounded = False
+                for f in fs:
+                    if f[0] != "cmp" or f[1] not in ("Lt", "Le", "Gt", "Ge", "Eq"):
+                        continue
+                    lo, hi = (f[2], f[3]) if f[1] in ("Lt", "Le", "Eq") else (f[3], f[2])
+                    if any(x[0] == "param" and x[1] in args for x in subterms(lo)) and any(x[0] == "param" and x[1] == 0 for x in subterms(hi)):
+                        bounded = True
+                if not bounded:
+                    bad.append("%s returned with no dominating comparison against self" % tstr(t)[:50])
+        ctx.ob(rule, fn + tag, loc(b.raw["span"]), not bad, "guard-dominance", "results computed from the argument alone: %s" % (bad or "all bounded / none"),
+               nontrivial=False, positive=bool(bad))
+    ctx.count("integer-query-entries" + tag, n)
+
+
 def check_config_tail(ctx, F, tag):
     check_select_clamps(ctx, F, tag)
+    check_returned_arguments(ctx, F, tag)
 
     # ---------------- R3 informational: sibling clamps
     for tr, methods in TRAIT_METHODS.items():
